@@ -116,12 +116,6 @@ Theorem C03_default_ns_qname_reset_refuted :
 Proof. exact default_ns_qname_reset_refuted. Qed.
 Print Assumptions C03_default_ns_qname_reset_refuted.
 
-Theorem C03_hostile_uri_refuted :
-  only_clause_fails 2 (clause_vector default_config w_hostile_uri_user w_hostile_uri_evs) = true
-  /\ native_sound_b default_config w_hostile_uri_user w_hostile_uri_evs = false.
-Proof. exact hostile_uri_refuted. Qed.
-Print Assumptions C03_hostile_uri_refuted.
-
 Theorem C03_bad_name_refuted :
   only_clause_fails 2 (clause_vector default_config w_bad_name_user w_bad_name_evs) = true
   /\ native_sound_b default_config w_bad_name_user w_bad_name_evs = false.
@@ -181,6 +175,11 @@ Example C03_adjacent_data_fixed :
   /\ lxml_sound_b default_config w_adjacent_data_user w_adjacent_data_evs = true.
 Proof. exact adjacent_data_fixed. Qed.
 Print Assumptions C03_adjacent_data_fixed.
+Example C03_hostile_uri_fixed :
+  writer_guard default_config w_hostile_uri_user w_hostile_uri_evs = true
+  /\ native_sound_b default_config w_hostile_uri_user w_hostile_uri_evs = true.
+Proof. exact hostile_uri_fixed. Qed.
+Print Assumptions C03_hostile_uri_fixed.
 Example C03_cr_in_text_fixed :
   writer_guard default_config [] w_cr_in_text_evs = true
   /\ native_sound_b default_config [] w_cr_in_text_evs = true
